@@ -1,0 +1,7 @@
+//go:build !verif
+
+package jbig2
+
+// verifPool is the no-op counterpart of the verification hook in
+// verif_pool_on.go.
+func verifPool(byte, []byte, int, *bitmapPool) {}
